@@ -235,7 +235,185 @@ void run(bool sync, bool arb, bool destroy, bool with_a, bool with_b = true) {
 
 }  // namespace can
 
+// =====================================================================================
+//  detach_on_cancel
+// =====================================================================================
+// tracked heap: the one allocation of detach_on_cancel's detached_state (made by make_unique inside
+// connect) is recognised by size while `armed`; its deallocation is counted, the block is poisoned
+// and kept in quarantine until the end of the execution so that late writes are visible.
+namespace heap {
+size_t track_size = 0;
+bool armed = false;
+void* tracked = nullptr;
+int allocs = 0, frees = 0;
+void reset(size_t sz) { track_size = sz; armed = true; tracked = nullptr; allocs = 0; frees = 0; }
+void off() { if (tracked) std::free(tracked); tracked = nullptr; track_size = 0; armed = false; }
+}  // namespace heap
+
+namespace doc {
+
+struct World;
+World* g_w = nullptr;
+
+struct Rcv {
+  World* w;
+  void set_value() && noexcept;
+  void set_done() && noexcept;
+  void set_error(std::exception_ptr) && noexcept;
+  friend unifex::inplace_stop_token tag_invoke(unifex::tag_t<unifex::get_stop_token>, const Rcv& r) noexcept;
+};
+
+struct ChildBase {
+  virtual void complete_value() noexcept = 0;
+  uint32_t magic = MAGIC;
+protected:
+  ~ChildBase() = default;
+};
+
+struct World {
+  bool sync = false;       // the child completes inside its start()
+  bool wait_rcv = false;   // thread A completes the child only after the receiver has been completed
+
+  unifex::inplace_stop_source src;
+  alignas(64) unsigned char storage[256];
+  size_t op_size = 0;
+  void (*destroy_fn)(void*) = nullptr;
+
+  std::atomic<int> a_go{0};       // 1 = child launched
+  std::atomic<int> rcv_flag{0};   // 1 = receiver completed and parent op destroyed
+  ChildBase* child = nullptr;
+
+  bool parent_destroyed = false;
+  int completions = 0;
+  int child_starts = 0;
+
+  void complete(const char* kind) {
+    if (parent_destroyed) rt::fail("receiver completed after the operation state was destroyed");
+    if (++completions > 1) { rt::fail("receiver completed twice"); return; }
+    rt::obs("rcv.%s", kind);
+    rt::point("in-completion");
+    destroy_fn(storage);                       // ~unique_ptr frees the detached state if still owned
+    std::memset(storage, POISON, op_size);
+    parent_destroyed = true;
+    rcv_flag.store(1);
+  }
+  void finish() {
+    if (completions != 1) rt::fail("receiver completed %d times at quiescence", completions);
+    if (heap::allocs != 1) rt::fail("harness: detached state allocation not recognised (%d)", heap::allocs);
+    if (heap::frees != 1) rt::fail("detached child state freed %d times at quiescence", heap::frees);
+    if (!all_poison(storage, op_size)) rt::fail("operation state memory was written after its destruction");
+    if (heap::tracked && heap::frees >= 1 && !all_poison(static_cast<unsigned char*>(heap::tracked), heap::track_size))
+      rt::fail("detached child state memory was written after it was freed");
+  }
+};
+
+void Rcv::set_value() && noexcept { World* ww = w; ww->complete("value"); }
+void Rcv::set_done() && noexcept { World* ww = w; ww->complete("done"); }
+void Rcv::set_error(std::exception_ptr) && noexcept { World* ww = w; ww->complete("error"); }
+unifex::inplace_stop_token tag_invoke(unifex::tag_t<unifex::get_stop_token>, const Rcv& r) noexcept {
+  return r.w->src.get_token();
+}
+
+// the child: a leaf that is completed by hand (from thread A, or inside start() in sync mode)
+template <typename R>
+struct ChildOp final : ChildBase {
+  R rcv;
+  explicit ChildOp(R&& r) noexcept : rcv((R&&)r) {}
+  ChildOp(ChildOp&&) = delete;
+  void start() noexcept {
+    World* w = g_w;
+    rt::obs("child.start");
+    if (magic != MAGIC) { rt::fail("child started on freed memory"); return; }
+    if (++w->child_starts > 1) rt::fail("child started twice");
+    if (w->sync) { complete_value(); return; }
+    w->child = this;
+    w->a_go.store(1);
+  }
+  void complete_value() noexcept override { unifex::set_value(std::move(rcv)); }
+};
+
+struct ChildSender {
+  template <template <typename...> class Variant, template <typename...> class Tuple>
+  using value_types = Variant<Tuple<>>;
+  template <template <typename...> class Variant>
+  using error_types = Variant<>;
+  static constexpr bool sends_done = true;
+  template <typename R>
+  friend ChildOp<std::remove_cv_t<std::remove_reference_t<R>>>
+  tag_invoke(unifex::tag_t<unifex::connect>, ChildSender&&, R&& r) noexcept {
+    return ChildOp<std::remove_cv_t<std::remove_reference_t<R>>>{(R&&)r};
+  }
+};
+
+using Sender = decltype(unifex::detach_on_cancel(ChildSender{}));
+using OpT = decltype(unifex::connect(std::declval<Sender>(), std::declval<Rcv>()));
+using StateT = typename unifex::_detach_on_cancel::operation_state<ChildSender, Rcv>::detached_state;
+
+void destroy_op(void* p) { static_cast<OpT*>(p)->~OpT(); }
+
+void start(World& w) {
+  static_assert(sizeof(OpT) <= sizeof(w.storage), "storage too small");
+  w.op_size = sizeof(OpT);
+  w.destroy_fn = &destroy_op;
+  heap::reset(sizeof(StateT));
+  OpT* op = ::new (static_cast<void*>(w.storage)) OpT(unifex::connect(unifex::detach_on_cancel(ChildSender{}), Rcv{&w}));
+  heap::armed = false;
+  rt::obs("start.begin");
+  unifex::start(*op);
+  rt::obs("start.end");
+}
+
+void thread_a(World& w) {
+  while (w.a_go.load() == 0) {}
+  if (w.wait_rcv) { while (w.rcv_flag.load() == 0) {} }
+  rt::obs("A.complete");
+  if (w.child->magic != MAGIC) { rt::fail("child state freed before the child finished"); return; }
+  w.child->complete_value();
+}
+
+void thread_b(World& w) {
+  rt::obs("stop.begin");
+  w.src.request_stop();
+  rt::obs("stop.end");
+}
+
+void run(bool sync, bool wait_rcv, bool with_a) {
+  World w; g_w = &w;
+  w.sync = sync; w.wait_rcv = wait_rcv;
+  int ta = -1, tb = -1;
+  if (with_a) ta = rt::spawn([&] { thread_a(w); });
+  tb = rt::spawn([&] { thread_b(w); });
+  start(w);
+  if (ta >= 0) rt::join(ta);
+  rt::join(tb);
+  w.finish();
+  heap::off();
+  g_w = nullptr;
+}
+
+}  // namespace doc
+
 }  // namespace
+
+// ---- tracked heap (see namespace heap) -------------------------------------------------------------
+void* operator new(std::size_t n) {
+  void* p = std::malloc(n ? n : 1);
+  if (!p) std::abort();
+  if (heap::armed && n == heap::track_size) { heap::armed = false; heap::tracked = p; heap::allocs++; }
+  return p;
+}
+static void tracked_delete(void* p) noexcept {
+  if (!p) return;
+  if (p == heap::tracked) {
+    if (++heap::frees > 1) { rt::fail("detached child state freed twice"); return; }
+    std::memset(p, POISON, heap::track_size);   // quarantine, released by heap::off()
+    rt::obs("state.freed");
+    return;
+  }
+  std::free(p);
+}
+void operator delete(void* p) noexcept { tracked_delete(p); }
+void operator delete(void* p, std::size_t) noexcept { tracked_delete(p); }
 
 // ---- cancellable: T0 connects+starts, T1 = completion source A, T2 = stop requester B ----------
 SCENARIO(c_race)  { can::run<false>(/*sync*/ false, /*arb*/ true, /*destroy*/ true, /*A*/ true); }
@@ -246,5 +424,12 @@ SCENARIO(c_sync)       { can::run<false>(true, true, true, false); }
 SCENARIO(c_sync_early) { can::run<true>(true, true, true, false); }
 // no stop request at all: T1 = completion source A races with the rest of start() only
 SCENARIO(c_complete_during_start) { can::run<false>(false, true, true, true, /*B*/ false); }
+
+// ---- detach_on_cancel: T0 connects+starts, T1 = child's completion source A, T2 = stop requester B --
+SCENARIO(d_race)   { doc::run(/*sync*/ false, /*wait_rcv*/ false, /*A*/ true); }
+// A finishes the abandoned child only after the receiver was completed: "done at once"
+SCENARIO(d_detach) { doc::run(false, true, true); }
+// the child completes inside its start(); T1 = stop requester
+SCENARIO(d_sync)   { doc::run(true, false, false); }
 
 RT_MAIN()
